@@ -7,43 +7,40 @@ import FlooVerif.AddrRange
 namespace FlooVerif.Model
 open FlooVerif
 
-/-- Network-level validators (pydantic field and model validators of Network/EndpointDesc/…) -/
-def validateDesc (d : Desc) : D Unit := do
-  -- AddrRange validation of every declared range
-  for e in d.endpoints do
-    for r in e.ranges do
-      match mkRange r with
-      | .ok _ => pure ()
-      | .error _ => throw (.range s!"invalid address range of {e.name}")
-    -- check_addr_range: a subordinate needs an address range
-    if e.isSbr && e.ranges.isEmpty then
-      throw (.range s!"Endpoint {e.name} is a Subordinate and requires an address range")
-  -- unique endpoint / router names
-  if !(d.endpoints.map (·.name)).Nodup then throw (.names "Endpoint names must be unique")
-  if !(d.routers.map (·.name)).Nodup then throw (.names "router names must be unique")
-  -- connections
-  for c in d.connections do
-    -- truthiness: `if self.src_idx and self.src_lvl`
-    let truthyIdx (o : Option (List Int)) := match o with | some l => !l.isEmpty | none => false
-    let truthyLvl (o : Option Int) := match o with | some l => l != 0 | none => false
-    if truthyIdx c.srcIdx && truthyLvl c.srcLvl then throw (.selector "src_idx and src_lvl are mutually exclusive")
-    if truthyIdx c.dstIdx && truthyLvl c.dstLvl then throw (.selector "dst_idx and dst_lvl are mutually exclusive")
-    if !c.bidirectional then throw (.count "Unidirectional connections are not supported yet.")
-  -- validate_protocols
-  let distinct (l : List Nat) := l.eraseDups.length
-  if distinct (d.protocols.map (·.addrW)) != 1 then throw (.protocol "All protocols must have the same address width")
-  match d.netType with
+def truthyIdx (o : Option (List Int)) : Bool := match o with | some l => !l.isEmpty | none => false
+def truthyLvl (o : Option Int) : Bool := match o with | some l => l != 0 | none => false
+def distinctCount (l : List Nat) : Nat := l.eraseDups.length
+
+def rangeInvalid (r : RangeSpec) : Bool := match mkRange r with | .ok _ => false | .error _ => true
+
+/-- Network-level validators (pydantic field and model validators of Network/EndpointDesc/…),
+    as a chain of decidable conditions; the first that holds rejects the description -/
+def validateDesc (d : Desc) : D Unit :=
+  if d.endpoints.any (fun e => e.ranges.any rangeInvalid) then throw (.range "invalid address range")
+  -- check_addr_range: a subordinate needs an address range
+  else if d.endpoints.any (fun e => e.isSbr && e.ranges.isEmpty) then
+    throw (.range "Endpoint is a Subordinate and requires an address range")
+  else if !(d.endpoints.map (·.name)).Nodup then throw (.names "Endpoint names must be unique")
+  else if !(d.routers.map (·.name)).Nodup then throw (.names "router names must be unique")
+  -- truthiness: `if self.src_idx and self.src_lvl`
+  else if d.connections.any (fun c => (truthyIdx c.srcIdx && truthyLvl c.srcLvl) || (truthyIdx c.dstIdx && truthyLvl c.dstLvl)) then
+    throw (.selector "idx and lvl are mutually exclusive")
+  else if d.connections.any (fun c => !c.bidirectional) then throw (.count "Unidirectional connections are not supported yet.")
+  else if distinctCount (d.protocols.map (·.addrW)) != 1 then throw (.protocol "All protocols must have the same address width")
+  else match d.netType with
   | .nw =>
     let nar := d.protocols.filter (·.type == some "narrow")
     let wid := d.protocols.filter (·.type == some "wide")
-    if distinct (nar.map (·.dataW)) != 1 then throw (.protocol "All `narrow` protocols must have the same data width")
-    if distinct (wid.map (·.dataW)) != 1 then throw (.protocol "All `wide` protocols must have the same data width")
-    if distinct (nar.map (·.userW)) != 1 then throw (.protocol "All `narrow` protocols must have the same user width")
-    if distinct (wid.map (·.userW)) != 1 then throw (.protocol "All `wide` protocols must have the same user width")
-    if d.protocols.any (·.type.isNone) then throw (.protocol "Protocols must define `type` for `narrow-wide` networks")
+    if distinctCount (nar.map (·.dataW)) != 1 then throw (.protocol "All `narrow` protocols must have the same data width")
+    else if distinctCount (wid.map (·.dataW)) != 1 then throw (.protocol "All `wide` protocols must have the same data width")
+    else if distinctCount (nar.map (·.userW)) != 1 then throw (.protocol "All `narrow` protocols must have the same user width")
+    else if distinctCount (wid.map (·.userW)) != 1 then throw (.protocol "All `wide` protocols must have the same user width")
+    else if d.protocols.any (·.type.isNone) then throw (.protocol "Protocols must define `type` for `narrow-wide` networks")
+    else pure ()
   | .axi =>
-    if distinct (d.protocols.map (·.dataW)) != 1 then throw (.protocol "All protocols must have the same data width")
-    if distinct (d.protocols.map (·.userW)) != 1 then throw (.protocol "All protocols must have the same user width")
+    if distinctCount (d.protocols.map (·.dataW)) != 1 then throw (.protocol "All protocols must have the same data width")
+    else if distinctCount (d.protocols.map (·.userW)) != 1 then throw (.protocol "All protocols must have the same user width")
+    else pure ()
 
 def createRouters (d : Desc) (g : Graph) : D Graph :=
   d.routers.zipIdx.foldlM (fun g (rt, k) =>
